@@ -14,9 +14,9 @@ PROP = {'rule': 'rapid-generated cases. takeCPUs: (topology sockets1-2 x numa1-2
  'units': [{'name': 'numa',
             'pkg': 'pkg/scheduler/plugins/nodenumaresource',
             'files': ['C06/c06_test.go'],
-            'tests': [{'run': 'TestVerifC06TakeCPUs', 'quick': 3000, 'thorough': 15000},
-                      {'run': 'TestVerifC06NUMASplit', 'quick': 3000, 'thorough': 20000},
-                      {'run': 'TestVerifC06ManagerHistory', 'quick': 400, 'thorough': 3000, 'steps': 25}]}],
+            'tests': [{'run': 'TestVerifC06TakeCPUs', 'quick': 20000, 'thorough': 150000},
+                      {'run': 'TestVerifC06NUMASplit', 'quick': 20000, 'thorough': 200000},
+                      {'run': 'TestVerifC06ManagerHistory', 'quick': 3000, 'thorough': 25000, 'steps': 25}]}],
  'manifest': {'technique': 'property-based testing (rapid): generated topologies/free sets/hints with validity + completeness oracle, and '
                            'a model-based state machine over allocate/update/release',
               'text': 'Generated-input search: every takeCPUs/takePreferredCPUs result is checked for exact count and containment in the '
